@@ -9,6 +9,8 @@ git apply "$PATCH" || { echo "patch does not apply"; exit 2; }
 VERIF_EVIDENCE_DIR=/verif/out/seed-evidence /verif/check "$PROP" --tier "$TIER" > /tmp/try_seed.out 2>&1
 RC=$?
 git checkout -- .
+# NB: the engine binary in /verif/engines/target is now the one built WITH the change; /verif/check rebuilds
+# (cargo sees the restored sources), but a direct call of the binary would still run the seeded build.
 echo "exit=$RC"
 grep -c "^VIOLATION" /tmp/try_seed.out
 grep "^VIOLATION\|kind=" /tmp/try_seed.out | head -6 | cut -c1-400
